@@ -65,9 +65,11 @@ pub fn run_seg(toks: &[&str]) -> String {
             } else {
                 vclock::set_real(t[0], t[1]);
                 vclock::set_mono(t[2], t[3]);
+                vclock::sleep_advances(true);
                 vclock::enable(true);
                 let r = std::panic::catch_unwind(std::panic::AssertUnwindSafe(|| c.now()));
                 vclock::enable(false);
+                vclock::sleep_advances(false);
                 let n = match r {
                     Err(_) => "panic".to_string(),
                     Ok(Err(e)) => cb_err(e),
@@ -106,9 +108,11 @@ pub fn run_sgo(toks: &[&str]) -> String {
             }
             vclock::set_real(t[0], t[1]);
             vclock::set_mono(t[2], t[3]);
+            vclock::sleep_advances(true);
             vclock::enable(true);
             let r = std::panic::catch_unwind(std::panic::AssertUnwindSafe(|| c.now()));
             vclock::enable(false);
+            vclock::sleep_advances(false);
             let n = match r {
                 Err(_) => "panic".to_string(),
                 Ok(Err(e)) => cb_err(e),
@@ -162,6 +166,88 @@ pub fn run_pubs(toks: &[&str]) -> String {
         };
         out.push(format!("L:{} F:{}", l, f));
     }
+    drop(long_lived);
+    drop(w);
+    let _ = std::fs::remove_file(&path);
+    out.join(" ")
+}
+
+/// lng <dir> <n> real_s real_n mono_s mono_n : the segment <dir>/shm reached through a path of exactly n bytes
+/// (the separator before the file name repeated), as `seg`
+pub fn padded_path(dir: &str, n: usize) -> String {
+    let pad = n.saturating_sub(dir.len() + 3).max(1);
+    format!("{}{}shm", dir, "/".repeat(pad))
+}
+pub fn run_lng(toks: &[&str]) -> String {
+    let path = padded_path(toks[0], p(toks[1]));
+    let mut t2: Vec<&str> = vec![&path];
+    t2.extend_from_slice(&toks[2..6]);
+    format!("len:{} {}", path.len(), run_seg(&t2))
+}
+
+/// pubr <n1> <cut> <n2> <mask> { record }*(n1+n2) : a daemon publishes n1 records and goes away; the file is cut to <cut>
+/// bytes (72: left whole); a second daemon starts over it and publishes n2 records.  A client attached after the first
+/// publication calls snapshot() after every publication of the first daemon, and after publication j (0-based) of the
+/// second one iff bit j of <mask> is set, and after the last one; a fresh client attaches at the end.  No shim.
+/// -> L<k>:<record> per look (k = number of publications so far, both daemons together) ... F:<record>
+pub fn run_pubr(toks: &[&str]) -> String {
+    static SEQ: std::sync::atomic::AtomicUsize = std::sync::atomic::AtomicUsize::new(0);
+    let (n1, cut, n2, mask): (usize, u64, usize, u64) = (p(toks[0]), p(toks[1]), p(toks[2]), p(toks[3]));
+    let path = scratch_dir().join(format!("pubr-{}", SEQ.fetch_add(1, std::sync::atomic::Ordering::SeqCst)));
+    let _ = std::fs::remove_file(&path);
+    let cpath = std::ffi::CString::new(path.to_str().unwrap()).unwrap();
+    let rec = |k: usize| {
+        let t: Vec<i64> = toks[4 + 7 * k..11 + 7 * k].iter().map(|s| p::<i64>(s)).collect();
+        crate::client::mk_ceb(&t)
+    };
+    let show = |r: &mut ShmReader| match r.snapshot() {
+        Err(e) => format!("snapshot-failed:{}", shm_err(e)),
+        Ok(c) => {
+            let v = crate::engine::cells_of(c);
+            format!("{}:{}:{}:{}:{}:{}:{}", v[0], v[1], v[2], v[3], v[4], v[5] & 0xffff_ffff, v[6])
+        }
+    };
+    let mut out = Vec::new();
+    let mut long_lived: Option<ShmReader> = None;
+    {
+        let mut w = match ShmWriter::new(&path) {
+            Ok(w) => w,
+            Err(e) => return format!("W:err:{:?}", e.kind()),
+        };
+        for k in 0..n1 {
+            w.write(&rec(k));
+            if long_lived.is_none() {
+                long_lived = ShmReader::new(cpath.as_c_str()).ok();
+            }
+            out.push(match long_lived.as_mut() {
+                Some(r) => format!("L{}:{}", k + 1, show(r)),
+                None => format!("L{}:open-failed", k + 1),
+            });
+        }
+    }
+    if cut < 72 {
+        if let Ok(f) = std::fs::OpenOptions::new().write(true).open(&path) {
+            let _ = f.set_len(cut);
+        }
+    }
+    let mut w = match std::panic::catch_unwind(|| ShmWriter::new(&path)) {
+        Ok(Ok(w)) => w,
+        Ok(Err(e)) => return format!("{} W2:err:{:?}", out.join(" "), e.kind()),
+        Err(_) => return format!("{} W2:panic", out.join(" ")),
+    };
+    for j in 0..n2 {
+        w.write(&rec(n1 + j));
+        if mask >> j & 1 == 1 || j + 1 == n2 {
+            out.push(match long_lived.as_mut() {
+                Some(r) => format!("L{}:{}", n1 + j + 1, show(r)),
+                None => format!("L{}:open-failed", n1 + j + 1),
+            });
+        }
+    }
+    out.push(match ShmReader::new(cpath.as_c_str()) {
+        Ok(mut r) => format!("F:{}", show(&mut r)),
+        Err(e) => format!("F:open-failed:{}", shm_err(e)),
+    });
     drop(long_lived);
     drop(w);
     let _ = std::fs::remove_file(&path);
